@@ -1195,3 +1195,75 @@ func (p *Prog) structTableRows(g *ssa.Global, sf, tf *types.Var) map[int64]strin
 	}
 	return out
 }
+
+// structTableRowsMulti is structTableRows keyed by the string field, so that several rows may share one type.
+func (p *Prog) structTableRowsMulti(g *ssa.Global, sf, tf *types.Var) map[string]int64 {
+	out := map[string]int64{}
+	if g.Pkg == nil {
+		return out
+	}
+	vs, idx, pk := p.VarDecl(g.Pkg.Pkg.Path(), g.Name())
+	if vs == nil || idx >= len(vs.Values) {
+		return out
+	}
+	cl, ok := vs.Values[idx].(*ast.CompositeLit)
+	if !ok {
+		return out
+	}
+	var structT *types.Struct
+	if tv, ok := pk.TypesInfo.Types[vs.Values[idx]]; ok {
+		switch u := tv.Type.Underlying().(type) {
+		case *types.Slice:
+			structT, _ = u.Elem().Underlying().(*types.Struct)
+		case *types.Array:
+			structT, _ = u.Elem().Underlying().(*types.Struct)
+		}
+	}
+	if structT == nil {
+		return out
+	}
+	posOf := func(f *types.Var) int {
+		for i := 0; i < structT.NumFields(); i++ {
+			if structT.Field(i) == f {
+				return i
+			}
+		}
+		return -1
+	}
+	si, ti := posOf(sf), posOf(tf)
+	for _, e := range cl.Elts {
+		row, ok := e.(*ast.CompositeLit)
+		if !ok {
+			continue
+		}
+		var sv, tvv constant.Value
+		for i, el := range row.Elts {
+			ex := el
+			fi := i
+			if kv, ok := el.(*ast.KeyValueExpr); ok {
+				ex = kv.Value
+				fi = -1
+				if id, ok := kv.Key.(*ast.Ident); ok {
+					for j := 0; j < structT.NumFields(); j++ {
+						if structT.Field(j).Name() == id.Name {
+							fi = j
+						}
+					}
+				}
+			}
+			val := pk.TypesInfo.Types[ex].Value
+			if fi == si {
+				sv = val
+			}
+			if fi == ti {
+				tvv = val
+			}
+		}
+		if sv != nil && tvv != nil && sv.Kind() == constant.String {
+			if k, exact := constant.Int64Val(constant.ToInt(tvv)); exact {
+				out[constant.StringVal(sv)] = k
+			}
+		}
+	}
+	return out
+}
